@@ -30,11 +30,14 @@ Proof.
   - intros i. simpl. destruct (lookup_cell (fst D) (fst i)) as [cl|]; [|reflexivity].
     rewrite (Hab i), (IHb (snd i) [] (cl_body cl)). reflexivity.
   - intros args locs rest. destruct rest as [|s more]; simpl; [reflexivity|].
-    destruct s as [e|e h].
+    destruct s as [e|e h|e c].
     + rewrite (IHe args locs e). destruct (sp_expr f D b args locs e); try reflexivity. apply IHb.
     + rewrite (IHe args locs e). destruct (sp_expr f D b args locs e); try reflexivity; [apply IHb|].
       destruct (catchable k); [|reflexivity].
       rewrite (IHe args locs h). destruct (sp_expr f D b args locs h); try reflexivity. apply IHb.
+    + rewrite (IHe args locs e), (IHe args locs c).
+      destruct (sp_expr f D b args locs e); try reflexivity;
+        destruct (sp_expr f D b args locs c); try reflexivity. apply IHb.
 Qed.
 
 (** * The abstract model: definitions and inputs under one operation *)
@@ -493,9 +496,10 @@ Theorem same_edits_same_answers fuel cells refs maxd ops1 ops2 xs1 xs2 st1 st2 :
   forall i r1 r2 st1' st2',
     eval_top fuel st1 i = (r1, st1') -> eval_top fuel st2 i = (r2, st2') ->
     r1 <> OutOfFuel -> r2 <> OutOfFuel -> r1 <> Err KDeep -> r2 <> Err KDeep ->
+    s_masks st1' = s_masks st1 -> s_masks st2' = s_masks st2 ->
     r1 = r2.
 Proof.
-  intros Hrn He Ha1 Hr1 Hn1 Hre1 Hr2 Hn2 Hre2 i r1 r2 st1' st2' E1 E2 N1 N2 K1 K2.
+  intros Hrn He Ha1 Hr1 Hn1 Hre1 Hr2 Hn2 Hre2 i r1 r2 st1' st2' E1 E2 N1 N2 K1 K2 Hm1 Hm2.
   set (st0 := init cells refs maxd) in *.
   assert (Ha2 : aops_ok (cells, refs) ops2).
   { apply aops_ok_edits. rewrite <- He. now apply aops_ok_edits. }
@@ -509,8 +513,8 @@ Proof.
   { intros j. change (ainp st1 j = ainp st2 j).
     rewrite A1, A2, <- (arun_inp_edits ops1), <- (arun_inp_edits ops2), He. reflexivity. }
   destruct Q1 as ((I1 & _) & _). destruct Q2 as ((I2 & _) & _).
-  destruct (eval_top_sim _ _ _ _ _ E1 N1 I1) as (_ & _ & G1).
-  destruct (eval_top_sim _ _ _ _ _ E2 N2 I2) as (_ & _ & G2).
+  destruct (eval_top_sim _ _ _ _ _ E1 N1 I1) as (_ & _ & G1). specialize (G1 Hm1).
+  destruct (eval_top_sim _ _ _ _ _ E2 N2 I2) as (_ & _ & G2). specialize (G2 Hm2).
   assert (Hsp : forall g, spec_eval g st1 i = spec_eval g st2 i).
   { intros g. unfold spec_eval. rewrite HD. apply (sp_ext (defs_of st2) _ _ HA g). }
   assert (Hex : forall r, r <> OutOfFuel -> r <> Err KDeep ->
@@ -535,6 +539,7 @@ Theorem live_equals_edits_only fuel cells refs maxd ops xs xs' st st_e :
   forall i r r' st1 st2,
     eval_top fuel st i = (r, st1) -> eval_top fuel st_e i = (r', st2) ->
     r <> OutOfFuel -> r' <> OutOfFuel -> r <> Err KDeep -> r' <> Err KDeep ->
+    s_masks st1 = s_masks st -> s_masks st2 = s_masks st_e ->
     r = r'.
 Proof.
   intros Hrn Ha Hr Hn Hre Hr' Hn' Hre'.
